@@ -16,7 +16,10 @@ DRIVER = os.path.join(LEAN_DIR, ".lake", "build", "bin", "driver")
 
 # ---------------------------------------------------------------- floats
 def fbits(x):
-    return str(struct.unpack("<Q", struct.pack("<d", float(x)))[0])
+    try:
+        return str(struct.unpack("<Q", struct.pack("<d", float(x)))[0])
+    except Exception:
+        return f"?{type(x).__name__}"      # a field that should hold a number holds something else
 
 
 def from_bits(s):
